@@ -127,6 +127,14 @@ func init() {
 	regLib("k8s.io/apimachinery/pkg/util/errors.NewAggregate", func(x *FnExec, fr *frame, n *node, in ssa.Instruction, c *ssa.CallCommon, args []Val, reach, hint string) (Val, error) {
 		r := x.havocVal(hint, resultType(in, c), reach)
 		x.q.assert(implies(eq("(s_len "+args[0].S+")", x.ilit(0)), eq(r.S, "inil")))
+		// nil entries are filtered; any non-nil entry makes the aggregate non-nil
+		errT := types.Universe.Lookup("error").Type()
+		hn, hs := x.elemHeap(errT)
+		arr := x.q.freshConst(hint+"_errs", fmt.Sprintf("(Array %s Iface)", x.q.intSort()))
+		x.q.assert(eq(arr, sel(x.heapGet(n.st, hn, hs), "(s_arr "+args[0].S+")")))
+		i := "|i?agg|"
+		x.q.assert(fmt.Sprintf("(forall ((%s %s)) (! (=> (and %s %s (not (= (select %s %s) inil))) (not (= %s inil))) :pattern ((select %s %s))))", i, x.q.intSort(),
+			x.cmp(">=", i, "(s_off "+args[0].S+")", tInt), x.cmp("<", i, x.arith("+", "(s_off "+args[0].S+")", "(s_len "+args[0].S+")", tInt), tInt), arr, i, r.S, arr, i))
 		return r, nil
 	})
 	pureStr := func(x *FnExec, fr *frame, n *node, in ssa.Instruction, c *ssa.CallCommon, args []Val, reach, hint string) (Val, error) {
